@@ -83,11 +83,17 @@ fn pend_enc(e: ProcessEnd) -> String {
 fn signals_stream(seed: u64, n: usize, cases: &mut impl Write, outs: &mut impl Write) {
     let mut r = Rng::new(seed);
     let mut probes: Vec<String> = vec![];
+    // spellings of a known signal and the OS signal they must parse to (the property's own statement)
+    let mut expect: std::collections::HashMap<String, i32> = std::collections::HashMap::new();
     for num in -3..=70i32 { probes.push(num.to_string()); probes.push(format!("+{num}")); probes.push(format!("0{num}")); }
     for num in 0..=70i32 { if let Ok(nx) = nix::sys::signal::Signal::try_from(num) {
         let name = nx.as_str(); let short = &name[3..];
         for base in [name, short] { let lo = base.to_lowercase(); let mut cap = lo.clone(); cap.replace_range(0..1, &base[0..1]); probes.push(base.into()); probes.push(lo); probes.push(cap);
-            let mixed: String = base.chars().enumerate().map(|(i, c)| if i % 2 == 0 { c.to_ascii_lowercase() } else { c }).collect(); probes.push(mixed); }
+            let mixed: String = base.chars().enumerate().map(|(i, c)| if i % 2 == 0 { c.to_ascii_lowercase() } else { c }).collect(); probes.push(mixed.clone());
+            let mixed2: String = base.chars().enumerate().map(|(i, c)| if i % 3 == 1 { c.to_ascii_lowercase() } else { c }).collect(); probes.push(mixed2.clone());
+            // documented exception: a control name (STOP) takes precedence over the unix short name
+            for sp in [base.to_string(), base.to_lowercase(), mixed, mixed2] { if sp.to_ascii_uppercase() != "STOP" { expect.insert(sp, num); } } }
+        expect.insert(num.to_string(), num);
     } }
     for c in ["BREAK", "break", "CLOSE", "CTRL-BREAK", "CTRL+BREAK", "CTRL-C", "CTRL+C", "ctrl-c", "CTRL-CLOSE", "CTRL+CLOSE", "STOP", "stop", "Stop", "FORCE-STOP", "force-stop", "C-BREAK", "C-C", "C-CLOSE",
         "", " ", "SIG", "sigfoo", "SIGSIGHUP", " 9", "9 ", "99999999999", "-0", "HUP ", "sighup\n", "é", "TERM1", "RTMIN", "SIGRTMIN", "34", "64", "65"] { probes.push(c.into()); }
@@ -100,6 +106,9 @@ fn signals_stream(seed: u64, n: usize, cases: &mut impl Write, outs: &mut impl W
     for p in &probes {
         let got = Signal::from_str(p);
         let mut oracle = String::new();
+        if let Some(want) = expect.get(p) {
+            match &got { Ok(s) if s.to_nix().map(|x| x as i32) == Some(*want) => {}, other => oracle = format!("spelling {p:?} of signal {want} parses to {other:?}") }
+        }
         if let Ok(s) = got { // display form parses back to the same OS signal
             if s.to_nix().is_some() { match Signal::from_str(&s.to_string()) { Ok(b) if b.to_nix() == s.to_nix() => {}, other => oracle = format!("display {} of {s:?} parses to {other:?}", s) } }
         }
@@ -250,7 +259,7 @@ fn json_stream(seed: u64, n: usize, cases: &mut impl Write, outs: &mut impl Writ
         ("simple", vec!["access".into(), "create".into(), "modify".into(), "remove".into(), "other".into()]),
         ("full", vec!["Create(File)".into(), "Modify(Name(Both))".into(), "Other".into(), "Nonsense".into(), "create(file)".into(), "".into(), "Access(Open(Execute))".into()]),
         ("source", vec!["filesystem".into(), "os".into()]), ("keycode", vec!["eof".into()]), ("pid", vec!["0".into(), "4294967295".into()]),
-        ("signal", vec!["hangup".into(), "forceStop".into(), "custom:0".into(), "custom:64".into(), "custom:-5".into()]),
+        ("signal", vec!["hangup".into(), "forceStop".into(), "terminate".into(), "custom:0".into(), "custom:1".into(), "custom:9".into(), "custom:15".into(), "custom:64".into(), "custom:-5".into()]),
         ("disposition", vec!["unknown".into(), "success".into(), "error".into(), "signal".into(), "stop".into(), "exception".into(), "continued".into()]),
         ("code", vec!["0".into(), "1".into(), "-1".into(), "2147483647".into(), "2147483648".into(), "-2147483648".into(), "-2147483649".into(), "9223372036854775807".into()])];
     for k in kind_names { let mut m = BTreeMap::new(); m.insert("kind", k.to_string()); emit(dec(m.clone(), &mut r), cases, outs);
